@@ -854,57 +854,64 @@ IrModel generateModel(Rng &rng, const GenOptions &opt)
     }
 
     if (opt.hostileText) {
-        static const std::vector<std::string> nasty = {"a&b", "x<y", "p>q", "say \"hi\"", "it's", "caf\xc3\xa9", "\xe5\x90\x8d\xe5\x89\x8d", "a&amp;b", "1 < 2 & 3 > 2", "tab\there", "  padded  ", "]]>", "<!-- c -->", "&#38;"};
+        // exactly one free-text attribute receives one hostile (but legal XML character data) string
+        static const std::vector<std::pair<std::string, std::string>> nasty = {
+            {"amp", "a&b"}, {"lt", "x<y"}, {"gt", "p>q"}, {"quot", "say \"hi\""}, {"apos", "it's"}, {"nonascii", "caf\xc3\xa9"},
+            {"nonascii", "\xe5\x90\x8d\xe5\x89\x8d"}, {"amp", "a&amp;b"}, {"mixed", "1 < 2 & 3 > 2"}, {"space", "  padded  "},
+            {"cdataend", "]]>"}, {"lt", "<!-- c -->"}, {"amp", "&#38;"}};
+        std::vector<std::pair<std::string, std::string *>> slots;
         for (auto &im : m.imports) {
-            if (rng.chance(0.6)) {
-                im.url = "m.cellml?" + rng.pick(nasty);
+            bool used = false;
+            for (const auto &u : m.units) {
+                used = used || (u.import >= 0 && &m.imports[static_cast<size_t>(u.import)] == &im);
             }
-            if (rng.chance(0.3)) {
-                im.id = rng.pick(nasty);
+            for (const auto &c : m.comps) {
+                used = used || (c.import >= 0 && &m.imports[static_cast<size_t>(c.import)] == &im);
+            }
+            if (used) {
+                slots.emplace_back("import.href", &im.url);
+                slots.emplace_back("import.id", &im.id);
             }
         }
-        if (rng.chance(0.3)) {
-            m.id = rng.pick(nasty);
-        }
-        for (auto &c : m.comps) {
-            if (rng.chance(0.3)) {
-                c.id = rng.pick(nasty);
+        slots.emplace_back("model.id", &m.id);
+        for (size_t ci = 0; ci < m.comps.size(); ++ci) {
+            auto &c = m.comps[ci];
+            slots.emplace_back("component.id", &c.id);
+            if (c.import >= 0) {
+                continue;
             }
             for (auto &v : c.vars) {
-                if (c.import >= 0) {
-                    continue;
+                slots.emplace_back("variable.id", &v.id);
+                slots.emplace_back("variable.initial_value", &v.init);
+                if (requiredInterface(m, static_cast<int>(ci), v.name).empty()) {
+                    slots.emplace_back("variable.interface", &v.iface);
                 }
-                if (rng.chance(0.2)) {
-                    v.id = rng.pick(nasty);
-                }
-                if (rng.chance(0.2)) {
-                    v.init = rng.pick(nasty);
-                }
-                if (rng.chance(0.1) && requiredInterface(m, static_cast<int>(&c - &m.comps[0]), v.name).empty()) {
-                    v.iface = rng.pick(nasty);
-                }
+            }
+            for (auto &r : c.resets) {
+                slots.emplace_back("reset.id", &r.id);
+                slots.emplace_back("test_value.id", &r.tvId);
+                slots.emplace_back("reset_value.id", &r.rvId);
             }
         }
         for (auto &u : m.units) {
-            if (rng.chance(0.2)) {
-                u.id = rng.pick(nasty);
+            slots.emplace_back("units.id", &u.id);
+            if (u.import >= 0) {
+                continue;
             }
             for (auto &k : u.units) {
-                if (rng.chance(0.1)) {
-                    k.id = rng.pick(nasty);
-                }
+                slots.emplace_back("unit.id", &k.id);
             }
         }
         for (auto &cn : m.conns) {
-            if (rng.chance(0.3)) {
-                cn.id = rng.pick(nasty);
-            }
+            slots.emplace_back("connection.id", &cn.id);
             for (auto &mp : cn.maps) {
-                if (rng.chance(0.3)) {
-                    mp.id = rng.pick(nasty);
-                }
+                slots.emplace_back("map_variables.id", &mp.id);
             }
         }
+        auto &slot = slots[rng.below(slots.size())];
+        const auto &n = rng.pick(nasty);
+        *slot.second = n.second;
+        m.hostile = slot.first + ":" + n.first;
     }
 
     if (opt.weirdIds) {
@@ -964,7 +971,7 @@ WriteStyle randomStyle(Rng &rng)
     s.prefixAll = rng.chance(0.2);
     s.shuffleAttrs = rng.chance(0.5);
     s.pretty = rng.chance(0.7);
-    s.mathPrefix = rng.chance(0.2);
+    s.mathPrefix = false; // prefixed MathML fails the (namespace-unaware) DTD validation: debatable, never generated as "valid"
     s.cellmlPrefixOnRoot = rng.chance(0.5);
     return s;
 }
